@@ -105,7 +105,7 @@ RULE = (
     "optionally a second start/stop cycle with producer P3), producer P1 (1-2 messages, joined before "
     "stop), producer P2 (0-2 messages racing with stop), each offering directly to the writer or via "
     "log_message through the global destinations, the reader thread, the pool thread running the join; "
-    "wrapped destination raising on a chosen subset of its calls (<= 2); plus two writers with their own "
+    "wrapped destination raising (an ordinary exception, or one whose str()/repr() raise) on a chosen subset of its calls (<= 2); plus two writers with their own "
     "destinations running at the same time (one stopped, optionally restarted, while the other still works); every schedule with <= p "
     "preemptions, at two granularities: (sync) scheduling points at queue put/get, thread start/join and "
     "blocking waits only, (line) additionally every source line of eliot/logwriter.py; "
@@ -135,6 +135,8 @@ HARNESSES = [
     # after the first cycle stopService is called once more (it is rejected: the writer is not
     # registered any more); the second cycle must be unaffected
     {"p1": 1, "p2": 0, "via": "direct", "mask": [], "cycles": 2, "double_stop": True},
+    # the destination's exception cannot be turned into text
+    {"p1": 2, "p2": 0, "via": "direct", "mask": [0], "cycles": 1, "exc": "no-text"},
     # two independent writers running at the same time, each with its own destination; B is stopped
     # while A still has work; the second variant restarts B afterwards
     {"writers": 2, "a": 2, "b": 1, "restart_b": False},
@@ -169,6 +171,15 @@ def cases(unit, tier):
 
 class DestBoom(Exception):
     pass
+
+
+class DestBoomNoText(Exception):
+    """A destination error that cannot be rendered: str()/repr()/format() of it raise."""
+
+    def __str__(self):
+        raise RuntimeError("no text")
+
+    __repr__ = __str__
 
 
 def run_two_writers(h, bound, shard, lines):
@@ -298,7 +309,7 @@ def run_harness(hi, bound, shard, lines=True):
             mid = msg.get("id") if isinstance(msg, dict) else msg
             written.append((mid, s.me().tid))
             if i in h["mask"]:
-                raise DestBoom("boom")
+                raise (DestBoomNoText() if h.get("exc") == "no-text" else DestBoom("boom"))
 
         w = lw.ThreadedWriter(dest, Reactor())
 
